@@ -71,10 +71,12 @@ CHECKS = {
          "requested output depends on (DiscoverFacts: invariant of Builder.discover; CoverageFacts), the alternating-walk lca returns the lowest "
          "common ancestor on any parent function (LcaFacts), the graph a node is placed in IS the lowest common ancestor - in the final scope "
          "tree - of all graphs whose traversal contains it (PlacementFacts), every non-argument operand is defined before use in the same or an "
-         "enclosing graph (DefUseFacts). CORRESPONDENCE on an EXHAUSTIVE skeleton family (scope trees x creation scope x body dependence x use "
+         "enclosing graph (DefUseFacts). TRANSLATOR tie (every run): the source text of Builder.ScopeTree.parent / .lca is translated to Gallina "
+         "(harness/pysrc.py) and coq/gen/SrcBuildFacts.v proves it equal to the model's parent / lca and transports the correctness theorem to the "
+         "walk as written in src/spox/_build.py. CORRESPONDENCE on an EXHAUSTIVE skeleton family (scope trees x creation scope x body dependence x use "
          "sets) + random leak-heavy programs. ORACLE: independent placement walker on the ModelProto, operator counts, legality rule.",
     note=TB + "Exhaustive only for the stated skeleton family.",
-    technique="Coq proof + exhaustive skeleton enumeration + independent walker",
+    technique="Coq proof (algorithm-level invariants of discover / scope resolution / lca) + source-to-Gallina translator for ScopeTree + exhaustive skeleton enumeration + independent walker",
     ref="4 C04"),
  "C11": dict(
     text="TRANSLATOR mode: the signature/emission tables of all 980 shipped (module, operator) pairs and of onnx.defs are re-dumped "
